@@ -4,11 +4,6 @@ import Fips204.Lemmas.Pipeline
 namespace Fips204.Impl
 open Fips204 Fips204.Gen Fips204.K
 
-theorem mapM_ok_len {α β} (f : α → M β) (P : α → Prop) (R : β → Prop) (hf : ∀ a, P a → ∃ b, f a = .ok b ∧ R b)
-    (l : List α) (h : ∀ a ∈ l, P a) : ∃ l', l.mapM f = .ok l' ∧ l'.length = l.length ∧ ∀ b ∈ l', R b := by
-  obtain ⟨l', h1, h2⟩ := mapM_ok f P R hf l h
-  exact ⟨l', h1, mapM_len f l l' h1, h2⟩
-
 theorem idx_mem {α} (site : String) (l : List α) (i : Nat) (x : α) (h : idx site l i = .ok x) : x ∈ l := by
   unfold idx at h
   cases hq : l[i]? with
